@@ -62,6 +62,24 @@ impl Group for AuthGroup {
             let mut w2 = w.clone(); w2.truncate(34 + p.saturating_sub(1));
             v.push(Case { lines: vec![line("conn", &exp, false, &[w2])] });
         }
+        // structured multi-byte deviations: equal delta in two bytes (for every pair of positions), two bytes
+        // swapped, rotations, reversal, complement, all bytes xor k
+        for i in 0..32 {
+            for j in (i + 1)..32 {
+                let mut h = exp.clone();
+                let d = 1u8 << ((i + j) % 8);
+                h[i] ^= d; h[j] ^= d;
+                v.push(Case { lines: vec![line("v", &exp, false, &[mk(&h)])] });
+                let mut h2 = exp.clone();
+                h2.swap(i, j);
+                if h2 != exp { v.push(Case { lines: vec![line("v", &exp, false, &[mk(&h2)])] }); }
+            }
+        }
+        for r in 1..32 { let mut h = exp.clone(); h.rotate_left(r); v.push(Case { lines: vec![line("v", &exp, false, &[mk(&h)])] }); }
+        { let mut h = exp.clone(); h.reverse(); v.push(Case { lines: vec![line("conn", &exp, false, &[mk(&h)])] }); }
+        for k in [0xffu8, 0x01, 0x80, 0x55] { let h: Vec<u8> = exp.iter().map(|b| b ^ k).collect(); v.push(Case { lines: vec![line("conn", &exp, false, &[mk(&h)])] }); }
+        // a correct prefix of every length followed by zeros / by the wrong tail
+        for k in 0..32 { let mut h = exp.clone(); for b in h[k..].iter_mut() { *b = 0; } if h != exp { v.push(Case { lines: vec![line("v", &exp, false, &[mk(&h)])] }); } }
         // hashes of related passwords
         for p in ["correct horse ", "Correct horse", "correct hors", "correct horse\n", "correct horsf", "", "correct  horse"] {
             v.push(Case { lines: vec![line("conn", &exp, false, &[mk(&sha(p))])] });
